@@ -312,7 +312,7 @@ class ExprMixin(object):
       if isinstance(v, Exc):
         yield st1, v
       elif isinstance(n.op, ast.Not):
-        yield st1, VBool(z3.Not(truthy(v, st1)))
+        yield st1, VBool(z3.Not(self.truth(v, st1)))
       elif isinstance(n.op, ast.USub) and isinstance(v, VInt):
         yield st1, VInt(z3.simplify(-v.t))
       else:
@@ -326,7 +326,7 @@ class ExprMixin(object):
       if isinstance(v, Exc) or len(values) == 1:
         yield st1, v
         continue
-      t = truthy(v, st1)
+      t = self.truth(v, st1)
       for st2, taken in self.fork(st1, t):
         if taken == is_and:
           yield from self._boolop(values[1:], is_and, st2)
@@ -338,7 +338,7 @@ class ExprMixin(object):
       if isinstance(c, Exc):
         yield st1, c
         continue
-      for st2, taken in self.fork(st1, truthy(c, st1)):
+      for st2, taken in self.fork(st1, self.truth(c, st1)):
         yield from self.ev(n.body if taken else n.orelse, st2)
 
   def ev_Compare(self, n, st):
